@@ -121,6 +121,9 @@ func genConfig(rng *simcore.RNG, env *simcore.Env) simcore.Op {
 			c["ttl_ns"] = []int{3, 10, 40}[rng.Intn(3)]
 		}
 	}
+	// v1 only: mempool.Flush may be called while checks are in flight (v0 documents its Flush
+	// as unsafe, there it is only called on an idle connection)
+	c["flush_inflight"] = c["ver"] == 1 && rng.Bool(0.4)
 	c["maxgas"] = -1
 	if rng.Bool(0.3) {
 		c["maxgas"] = rng.Range(1, 5)
@@ -376,30 +379,31 @@ type sim struct {
 	commitsDone  atomic.Int64
 
 	// driver only
-	risk     bool // some goroutine may be blocked on a mutex: introspective settle
-	mutexW   int
-	subs     []*subActor
-	commit   *commitActor
-	height   int64
-	commits  int
-	opsLeft  int
-	lastObs  []int
-	seq      int
-	tracked  map[int]*track
-	admit    []int           // txs with an accepting New response since the last observation, in delivery order
-	admitV   map[int]verdict // their verdicts
-	admitCom map[int]bool    // v1: accepting New response delivered while the commit actor held the lock: applied after the update
-	delivNew map[int]bool    // New responses delivered since the last observation
-	justCom  []int           // block of the commit that finished since the last observation
-	lru      *lruModel
-	comRem   map[int]bool // committed with code OK and still remembered by the reference LRU
-	comAt    map[int]int64 // number of finished commits when it was last committed
-	admitEp  map[int]int64 // epoch of the request whose accepting response was delivered last
-	nUpdates int
-	commitErr error
-	pendingRm []int // cache removals of responses that are delivered but possibly not processed yet
-	tainted   bool // a known duplicate-class finding was hit: C12 oracles are off for the rest of the run
-	dupSuspect map[int]int // how often it was accepted again while in the pool
+	risk            bool // some goroutine may be blocked on a mutex: introspective settle
+	mutexW          int
+	subs            []*subActor
+	commit          *commitActor
+	height          int64
+	commits         int
+	opsLeft         int
+	lastObs         []int
+	seq             int
+	tracked         map[int]*track
+	admit           []int           // txs with an accepting New response since the last observation, in delivery order
+	admitV          map[int]verdict // their verdicts
+	admitCom        map[int]bool    // v1: accepting New response delivered while the commit actor held the lock: applied after the update
+	delivNew        map[int]bool    // New responses delivered since the last observation
+	justCom         []int           // block of the commit that finished since the last observation
+	lru             *lruModel
+	comRem          map[int]bool  // committed with code OK and still remembered by the reference LRU
+	comAt           map[int]int64 // number of finished commits when it was last committed
+	admitEp         map[int]int64 // epoch of the request whose accepting response was delivered last
+	nUpdates        int
+	commitErr       error
+	flushedInflight bool        // Flush was called while requests were unanswered
+	pendingRm       []int       // cache removals of responses that are delivered but possibly not processed yet
+	tainted         bool        // a known duplicate-class finding was hit: C12 oracles are off for the rest of the run
+	dupSuspect      map[int]int // how often it was accepted again while in the pool
 }
 
 func newSim(env *simcore.Env, cfg simcore.Op) simcore.Sim {
@@ -615,6 +619,9 @@ func (l *lruModel) push(x int) int {
 func (s *sim) lruPush(x int) {
 	if ev := s.lru.push(x); ev >= 0 {
 		delete(s.comRem, ev)
+		if s.tracked[ev] != nil {
+			s.env.Count("fault.cache_evicts_live_tx")
+		}
 	}
 }
 
@@ -746,6 +753,14 @@ func (s *sim) lockHeld() bool {
 	return true
 }
 
+// canFlush: mempool.Flush may be called now.
+func (s *sim) canFlush() bool {
+	if s.idle() {
+		return true
+	}
+	return s.ver == 1 && s.cfg.Bool("flush_inflight") && s.commit == nil && s.mutexW == 0
+}
+
 func (s *sim) idle() bool {
 	_, _, n := s.conn.counts()
 	return n == 0 && s.commit == nil && s.mutexW == 0 && len(s.subs) == 0
@@ -781,6 +796,8 @@ func (s *sim) Next(rng *simcore.RNG) simcore.Op {
 	}
 	if s.idle() {
 		w[6], w[7] = 1, 2
+	} else if s.canFlush() {
+		w[6] = 2
 	}
 	if s.ver == 1 && s.cfg.Int("ttl_ns") > 0 && s.mutexW == 0 && !s.lockHeld() {
 		w[8] = 3
@@ -881,6 +898,7 @@ func (s *sim) Apply(op simcore.Op) bool {
 		info := mempool.TxInfo{SenderID: uint16(op.Int("peer"))}
 		if s.commit != nil {
 			s.risk = true
+			e.Count("fault.submit_during_commit")
 		}
 		go func() {
 			defer a.done.Store(true)
@@ -948,8 +966,12 @@ func (s *sim) Apply(op simcore.Op) bool {
 		s.checkReapBytesGas(op.Int64("bytes"), op.Int64("gas"))
 		e.Count("op.reapbg")
 	case "flush":
-		if !s.idle() {
+		if !s.canFlush() {
 			return false
+		}
+		if _, _, n := s.conn.counts(); n > 0 {
+			s.flushedInflight = true
+			e.Count("fault.flush_with_checks_in_flight")
 		}
 		s.mp.Flush()
 		s.settle()
@@ -996,6 +1018,18 @@ func (s *sim) startCommit(txs, codes []int) {
 		block.Data.Txs = append(block.Data.Txs, types.Tx(s.univ[i]))
 		dtx = append(dtx, &abci.ResponseDeliverTx{Code: uint32(codes[k])})
 	}
+	inPool := map[int]bool{}
+	for _, i := range s.lastObs {
+		inPool[i] = true
+	}
+	for k, i := range txs {
+		if codes[k] != 0 {
+			s.env.Count("fault.block_tx_invalid")
+		}
+		if !inPool[i] {
+			s.env.Count("fault.block_tx_not_in_pool")
+		}
+	}
 	st := s.state
 	st.LastBlockHeight = s.height
 	s.risk = true
@@ -1027,6 +1061,9 @@ func (s *sim) deliverHead() {
 	}
 	if s.ver == 1 {
 		s.advance(1) // v1 stamps the arrival time when the caller resumes
+	}
+	if s.commit != nil {
+		e.Count("fault.response_during_commit")
 	}
 	ver := s.appVersion()
 	v := verdict{}
@@ -1074,7 +1111,7 @@ func (s *sim) deliverHead() {
 			t.prio = v.prio
 		}
 		if !v.ok {
-			e.Count("probe.recheck_rejects")
+			e.Count("fault.recheck_verdict_reject")
 			if !s.cfg.Bool("keep_invalid") {
 				s.pendingRm = append(s.pendingRm, r.txi)
 			}
@@ -1464,6 +1501,10 @@ func (s *sim) dupFail(format string, a ...any) {
 // dupSig: the class of "same transaction twice in the pool" (the cache is disabled, or the
 // LRU forgot a transaction that is still in the pool).
 func (s *sim) dupSig() string {
+	if s.flushedInflight && s.mcfg.CacheSize > 0 {
+		// Flush emptied the cache while a check was in flight: the tx it admitted is unknown to the cache
+		return s.vn + "-dup-tx-after-inflight-flush"
+	}
 	if s.mcfg.CacheSize == 0 {
 		return s.vn + "-dup-tx-nocache"
 	}
